@@ -101,6 +101,8 @@ class World:
         self.rdesc = {}
         self.next_ruid = 1
         self.nan_source = (not tiny) and bool(rng.integers(3) == 0)
+        # exact zeros between different conditions (identical patterns, a categorical model RDM) are values like any other
+        self.zero_source = bool(rng.integers(3) == 0)
 
     def value(self, r, a, b):
         return self.store[(r, frozenset((a, b)))]
@@ -116,6 +118,8 @@ class World:
                 v = float(r * 10000 + min(a, b) * 100 + max(a, b))
                 if self.nan_source and self.rng.integers(12) == 0:
                     v = float('nan')
+                elif self.zero_source and self.rng.integers(6) == 0:
+                    v = 0.0
                 self.store[(r, frozenset((a, b)))] = v
         return self.build(ruids, conds)
 
@@ -630,6 +634,37 @@ def random_sequence(ctx, length):
     ctx.count('sequences_completed')
 
 
+def derived_index_scenario(ctx):
+    """selections by the default 'index' descriptor on an object that is itself a selection: its index values are the
+    ones it inherited (with gaps, later with repeats), and they -- not the row positions -- are what a request names"""
+    rng = ctx.rng
+    w = World(rng)
+    run = Run(ctx, w)
+    n = int(rng.integers(4, 7))
+    obj, sh = w.new_source(n)
+    run.add(obj, sh)
+    rows = sorted(int(i) for i in rng.choice(n, size=3, replace=False))
+    sig = dict(op='subsample', arg='index/derived')
+    hist = lambda **k: dict(op='derived_index', n_rdm=n, rows=rows, **k)  # noqa: E731
+    try:
+        d = obj.subset('index', rows) if rng.integers(2) else obj[rows]
+        run.add(d, Shadow([sh.rows[i] for i in rows], list(sh.conds)))
+        vals = [rows[2], rows[0], rows[2]]
+        e = d.subsample('index', vals if rng.integers(2) else np.array(vals))
+        run.add(e, Shadow([sh.rows[v] for v in vals], list(sh.conds)))
+        f = d.subset('index', [rows[1], rows[2]])
+        run.add(f, Shadow([sh.rows[rows[1]], sh.rows[rows[2]]], list(sh.conds)))
+        # the index of e has repeats: naming the repeated value selects both copies
+        g = e.subset('index', rows[2])
+        run.add(g, Shadow([sh.rows[rows[2]], sh.rows[rows[2]]], list(sh.conds)))
+    except Exception as exc:
+        ctx.fail('subsample', dict(sig, what='raised', exception=type(exc).__name__), f'selection by index on a derived '
+                 f'object raised {exc!r}', hist())
+        return
+    ctx.case('subsample', sig)
+    run.verify_all('subsample', sig, hist, touched=(1, 2, 3, 4))
+
+
 def exhaustive_short(ctx):
     """all sequences of length <= 3 of the core operations over a 3-condition, 2-RDM object (fixed arguments
     chosen by a per-sequence generator seeded from the sequence itself)"""
@@ -688,6 +723,8 @@ def run(ctx):
             ctx.notes.append(f'time budget reached after {it} sequences')
             break
         random_sequence(ctx, length)
+        if it % 15 == 0:
+            derived_index_scenario(ctx)
     if ctx.thorough:
         exhaustive_short(ctx)
     ctx.count('invariant_evaluations', _inv['n'])
